@@ -29,7 +29,7 @@ use crate::{
 };
 
 /// `enumerate`: instead of sampling, the run index is decoded into one combination of
-/// side x accept-callback outcome x local fault (none, or one of 4 kinds before frame 0..2) x
+/// side x accept-callback outcome x local fault (none, or one of 5 kinds before frame 0..2) x
 /// script (every sequence of up to 2 frames - thorough: 3 - over 13 representative frames),
 /// so that a batch of exactly that many runs covers the bounded space completely.
 pub struct Session {
@@ -39,7 +39,7 @@ pub struct Session {
 pub const ENUM_SYMBOLS: u64 = 13;
 pub fn enum_space(max_len: u32) -> u64 {
     let scripts: u64 = (0..=max_len).map(|l| ENUM_SYMBOLS.pow(l)).sum();
-    2 * 4 * 13 * scripts
+    2 * 4 * 16 * scripts
 }
 
 fn enum_frame(sym: u64) -> Frame {
@@ -69,9 +69,9 @@ fn gen_enumerated(rng: &mut Rng, tier: Tier) -> SessionPlan {
     i /= 2;
     let accept = (i % 4) as u8;
     i /= 4;
-    let f = i % 13;
-    i /= 13;
-    let local_fault = if f == 0 { None } else { Some((((f - 1) / 4) as usize, ((f - 1) % 4) as u8)) };
+    let f = i % 16;
+    i /= 16;
+    let local_fault = if f == 0 { None } else { Some((((f - 1) / 5) as usize, ((f - 1) % 5) as u8)) };
     // i now indexes the scripts: first those of length 0, then 1, ...
     let mut len = 0u32;
     while i >= ENUM_SYMBOLS.pow(len) {
@@ -237,7 +237,7 @@ impl Scenario for Session {
             cut_to_sut: cut(rng),
             cut_from_sut: cut(rng),
             cut_in_frame: if rng.chance(1, 5) { Some((rng.urange(0, if flat { 6 } else { 3 }), rng.range(0, 10) as i32 - 4, rng.chance(1, 4))) } else { None },
-            local_fault: if rng.chance(1, 3) { Some((rng.urange(0, if flat { 9 } else { 4 }), rng.below(4) as u8)) } else { None },
+            local_fault: if rng.chance(1, 3) { Some((rng.urange(0, if flat { 9 } else { 4 }), rng.below(5) as u8)) } else { None },
             accept: if rng.chance(3, 4) { 0 } else { rng.range(1, 3) as u8 },
             sut_doc_known: rng.chance(9, 10),
             sut_sync: rng.chance(9, 10),
@@ -315,7 +315,7 @@ impl Scenario for Session {
 
     fn rule(&self) -> String {
         if self.enumerate {
-            return "Enumeration, not sampling: run i is combination i of side under test (initiator / acceptor) x accept-callback outcome (allow, not found, already syncing, internal error) x local fault (none, or replica closed / sync disabled / actor shut down / shutdown queued ahead of the next request, placed before frame 0, 1 or 2) x scripted peer (every sequence of up to 2 frames - thorough: 3 - over 13 representative frames: Init known / unknown / carrying an entry, Sync with an entry / empty / made-up ranges, Abort x3, garbage of 5 and of 0 bytes, oversized prefix, truncated frame), then close; store contents and read chunking are drawn. The batch has exactly as many runs as there are combinations.".into();
+            return "Enumeration, not sampling: run i is combination i of side under test (initiator / acceptor) x accept-callback outcome (allow, not found, already syncing, internal error) x local fault (none, or replica closed / sync disabled / actor shut down / shutdown queued ahead of the next request / the same with another client's request waiting ahead of the shutdown, placed before frame 0, 1 or 2) x scripted peer (every sequence of up to 2 frames - thorough: 3 - over 13 representative frames: Init known / unknown / carrying an entry, Sync with an entry / empty / made-up ranges, Abort x3, garbage of 5 and of 0 bytes, oversized prefix, truncated frame), then close; store contents and read chunking are drawn. The batch has exactly as many runs as there are combinations.".into();
         }
         "A run picks the side under test (initiator or acceptor), a real counterpart or a scripted peer with up to 6 frames over {Init known/unknown, Sync valid, Sync made-up ranges, Abort x3, garbage, oversized, truncated} followed by close, read chunk sizes 1-4096, an optional cut (EOF or reset) after 0-400 bytes in each direction, or placed inside the k-th frame towards the side under test at 0-5 bytes after its start / 1-4 bytes before its end (a stream that ends or is reset strictly inside a frame must be reported as an error), an optional local fault (close replica / disable sync / shut actor down) before the k-th delivered frame, the accept callback outcome and whether the document is known and syncing. Non-trivial: a fault fired or the peer was scripted.".into()
     }
@@ -529,6 +529,8 @@ async fn run(plan: &SessionPlan, cx: &mut Cx) -> Res {
     let mut returned_store: Option<iroh_docs::store::Store> = None;
     // a shutdown that was queued but not awaited: the session's next request lands behind it
     let mut queue_shutdown = false;
+    let mut queue_other_first = false;
+    let mut other_pending: Option<std::pin::Pin<Box<dyn std::future::Future<Output = ()>>>> = None;
     let mut pending_shutdown: Option<std::pin::Pin<Box<dyn std::future::Future<Output = anyhow::Result<iroh_docs::store::Store>>>>> = None;
     let mut cut_to_done = false;
     let mut cut_from_done = false;
@@ -603,8 +605,14 @@ async fn run(plan: &SessionPlan, cx: &mut Cx) -> Res {
                                     returned_store = sut_handle.shutdown().await.ok();
                                     cx.fault("local_actor_shutdown_mid_session");
                                 }
-                                _ => {
+                                3 => {
                                     queue_shutdown = true;
+                                }
+                                _ => {
+                                    // as 3, but another client's request is already waiting in the
+                                    // inbox ahead of the shutdown
+                                    queue_shutdown = true;
+                                    queue_other_first = true;
                                 }
                             }
                             cx.ev("local-fault", format!("{kind} before frame {delivered_frames}"));
@@ -627,6 +635,17 @@ async fn run(plan: &SessionPlan, cx: &mut Cx) -> Res {
                     p2s.release(rel);
                     if queue_shutdown {
                         queue_shutdown = false;
+                        if queue_other_first {
+                            queue_other_first = false;
+                            let h3 = sut_handle.clone();
+                            let mut fut: std::pin::Pin<Box<dyn std::future::Future<Output = ()>>> = Box::pin(async move { let _ = h3.get_state(ns).await; });
+                            let waker = futures_noop_waker();
+                            let mut cxp = std::task::Context::from_waker(&waker);
+                            if fut.as_mut().poll(&mut cxp).is_pending() {
+                                other_pending = Some(fut);
+                            }
+                            cx.fault("another_request_waiting_ahead_of_the_queued_shutdown");
+                        }
                         // The frame is released first (the session task is woken first), then the
                         // shutdown is put into the actor's inbox without waiting for it: the
                         // session reads the frame and sends its next request into the inbox
@@ -717,6 +736,7 @@ async fn run(plan: &SessionPlan, cx: &mut Cx) -> Res {
         }
     }
     let _ = sut_task.await;
+    drop(other_pending);
     // what the SUT wrote last is still held by the pipe
     if !cut_from_done {
         let bytes = s2p.held_bytes();
